@@ -459,7 +459,9 @@ C04_owned(g, o, ln) ==
    (ln.k \in {"probe", "end"} /\ Quiet(o) /\ g.passes >= 1 /\ ~g.blocked) =>
       \A p \in 1..NK(o) :
          /\ (KSt(o, p) = "run" /\ KPar(o, p) = 0 /\ p \notin g.released)
-               => Cardinality({ i \in WIdx(o) : p \in Pids(o.w[i]) }) = 1
+               => /\ Cardinality({ i \in WIdx(o) : p \in Pids(o.w[i]) }) = 1
+                  \* ... a watcher that is in the directory: one that was removed but still runs workers reports nothing
+                  /\ \E i \in WIdx(o) : p \in Pids(o.w[i]) /\ o.w[i].n \in SeqToSet(o.wl)
          /\ KSt(o, p) # "zombie"
          /\ (KSt(o, p) = "reaped" => p \notin AllTracked(o))
 C04_status(o, ln, o2) ==
